@@ -312,7 +312,38 @@ func init() {
 					emit(fmt.Sprintf("sync.round %s %s %s", b01(force), csvOrDash(fails), b01(w.ln.listFails)), w.takeSent())
 					w.ln.listFails = false
 					w.ln.failTo = map[string]bool{}
-				case c < 60:
+				case c < 58:
+					// a message from a peer is handled while the round is sending to that peer
+					force := r.intn(4) == 0
+					fails := subsetStr(r, syncPeers, 8)
+					w.ln.failTo = map[string]bool{}
+					for _, f := range fails {
+						w.ln.failTo[f] = true
+					}
+					w.ln.listFails = r.intn(12) == 0
+					src := r.pickStr(syncPeers)
+					p := genSyncPayload(r, hist)
+					ty, mt := "poll", messages.MESSAGETYPE_POLL
+					if r.intn(3) == 0 {
+						ty, mt = "req", messages.MESSAGETYPE_REQUEST_POLL
+					}
+					id, _ := peersync.NewPeerID(src)
+					fired, busy := 0, false
+					w.ln.onSend = func(to string) {
+						if to == src && !busy { // not for the handler's own answer
+							busy = true
+							fired++
+							w.ps.VerifHandle(ctx, peersync.CustomMessage{From: id, Type: mt, Payload: p.json()})
+							busy = false
+						}
+					}
+					w.ps.VerifPollPeers(ctx, force)
+					w.ln.onSend = nil
+					hist[fmt.Sprintf("roundduring:handled=%d", fired)]++
+					emit(fmt.Sprintf("sync.roundduring %s %s %s %s %s %s", b01(force), csvOrDash(fails), b01(w.ln.listFails), ty, src, p.line()), w.takeSent())
+					w.ln.listFails = false
+					w.ln.failTo = map[string]bool{}
+				case c < 64:
 					w.ln.listFails = r.intn(8) == 0
 					w.ps.VerifCleanup(ctx)
 					emit("sync.cleanup "+b01(w.ln.listFails), "ok")
